@@ -191,11 +191,15 @@ def make_overrides(skel, sym, which):
     pars = []
     tab = param_table(skel)
     for k, (name, e) in enumerate(sorted(tab.items())):
-        if "lumi" in e["types"] or k % 2 != which:
+        forced = bool(skel.get("zero_uncertainty")) and name in skel["zero_uncertainty"] and which == 1
+        if "lumi" in e["types"] or (k % 2 != which and not forced):
             continue
         t = sorted(e["types"])[0]
         p = {"name": name}
-        for key in OVERRIDES.get(t, []):
+        for key in OVERRIDES.get(t, []) + (["fixed"] if skel.get("zero_uncertainty") and name in skel["zero_uncertainty"] and which == 1 else []):
+            if key == "fixed" and skel.get("zero_uncertainty") and name in skel["zero_uncertainty"]:
+                p[key] = False          # an explicit "not fixed" must win over the partly-fixed default
+                continue
             if key == "inits":
                 p[key] = [sym(f"ov.{name}.init{j}") for j in range(e["size"])]
             elif key == "bounds":
@@ -342,7 +346,7 @@ def run_one(T, name, skel, which):
                     goals.append(eng.veq(list(bounds[g]), list(DEFAULTS[t][1])))
                 dead = (skel.get("zero_uncertainty") or {}).get(p)
                 if "fixed" in cfgp:
-                    goals.append(eng.veq(fixed[g], True))
+                    goals.append(eng.veq(fixed[g], cfgp["fixed"]))
                 else:
                     goals.append(eng.veq(fixed[g], dead == j))
                 want_name = p if tab[p]["size"] == 1 and t not in ("shapesys", "staterror", "shapefactor") else f"{p}[{j}]"
@@ -436,6 +440,19 @@ def replay(r):
             for m_ in s_["modifiers"]:
                 if m_["name"] in (skel.get("zero_uncertainty") or {}):
                     m_["data"][skel["zero_uncertainty"][m_["name"]]] = 0.0
+    class NumSym:
+        def __init__(self):
+            self.k = 0
+
+        def __call__(self, name):
+            self.k += 1
+            if ".lo" in name:
+                return 0.01 * self.k
+            if ".hi" in name:
+                return 20.0 + self.k
+            return round(0.7 + 0.13 * self.k, 3)
+    ov = make_overrides(skel, NumSym(), meta.get("which", 0))
+    spec["parameters"] = [p for p in spec.get("parameters", []) if p["name"] not in {o["name"] for o in ov}] + ov
     obs = [{"name": c["name"], "data": [float(rng.randint(1, 50)) for _ in c["samples"][0]["data"]]} for c in spec["channels"]]
     wsspec = {"channels": spec["channels"], "observations": obs,
               "measurements": [{"name": "meas", "config": {"poi": skel.get("poi") or "", "parameters": spec.get("parameters", [])}}], "version": "1.0.0"}
@@ -449,7 +466,8 @@ def replay(r):
             try:
                 ws2 = pyhf.Workspace.build(m, d)
                 m2 = ws2.model(**kw)
-                if list(ws2.data(m2)) != list(d) or m2.config.suggested_init() != m.config.suggested_init() or list(m2.config.auxdata) != list(m.config.auxdata):
+                if (list(ws2.data(m2)) != list(d) or m2.config.suggested_init() != m.config.suggested_init() or list(m2.config.auxdata) != list(m.config.auxdata)
+                        or m2.config.suggested_fixed() != m.config.suggested_fixed() or [tuple(b) for b in m2.config.suggested_bounds()] != [tuple(b) for b in m.config.suggested_bounds()]):
                     bad["rebuild"] = "rebuilt workspace does not reproduce data / settings"
                 else:
                     pars = m.config.suggested_init()
@@ -471,6 +489,15 @@ def replay(r):
                 want += next(o["data"] for o in obs if o["name"] == c)
             if list(d) != want + list(m.config.auxdata) or list(ws.data(m)) != list(d):
                 bad["data"] = "Workspace.data layout / idempotence"
+            init, bnds, fx = m.config.suggested_init(), m.config.suggested_bounds(), m.config.suggested_fixed()
+            for o in ov:
+                s_ = m.config.par_slice(o["name"])
+                if "inits" in o and list(init[s_]) != list(o["inits"]):
+                    bad[f"inits of {o['name']}"] = {"got": list(init[s_]), "override": o["inits"]}
+                if "bounds" in o and [list(b) for b in bnds[s_]] != [list(b) for b in o["bounds"]]:
+                    bad[f"bounds of {o['name']}"] = {"got": [list(b) for b in bnds[s_]], "override": o["bounds"]}
+                if "fixed" in o and list(fx[s_]) != [o["fixed"]] * (s_.stop - s_.start):
+                    bad[f"fixed of {o['name']}"] = {"got": list(fx[s_]), "override": o["fixed"]}
     except Exception as e:
         bad["construction"] = f"{type(e).__name__}: {e}"
     return {"reproduced": bool(bad), "disagreements": bad, "spec": wsspec if bad else None}
